@@ -411,11 +411,8 @@ Proof.
     pose proof (cnt_upd _ is_wokenE w (set_pc (mkW WWaitE r) WWokenE) _ _ E) as CK.
     revert CW CK U. wk_simpl. intros CW CK U. destruct HI. specialize (i_wake C). lia.
   - destruct (pst s) eqn:P; try discriminate. inversion H; subst s'; clear H.
-    destruct HI. constructor; flds; auto.
-    + discriminate.
-    + destruct i_closed as (A & B). split; auto. rewrite A. split; intros [H|H]; discriminate.
-    + intros _. apply i_pwait. auto.
-    + discriminate.
+    destruct HI. constructor; flds; auto; try discriminate.
+    destruct i_closed as (A & B). split; auto. rewrite A, P. split; intros [H|H]; discriminate.
 Qed.
 
 Theorem inv_reachable_all : 1 <= nthr pa -> forall s, reachable pa script s -> Inv s.
